@@ -1,6 +1,7 @@
 import Tw.Model.Datafile
 import Tw.Model.Inflate
 import Tw.Proofs.Datafile
+import Tw.Proofs.DatafileWriter
 import Tw.Model.Map
 import Tw.Proofs.Map
 import Tw.Gen.MapItems
@@ -178,6 +179,68 @@ example : (Reader.new (writeDf 3 id [⟨4, 0, [7]⟩, ⟨4, 1, []⟩] [[1, 2, 3]
 /-- non-vacuity: a version-4 file (identity "compression") is accepted -/
 example : (Reader.new (writeDf 4 id [⟨0, 0, [1]⟩, ⟨5, 2, [-1, 2]⟩] [[9], []])).isOk = true := by decide
 
+
+/-! ## Writer / reader round trip -/
+
+/-- well-formed item list for the writer: 16-bit type ids and ids, 32-bit data words, equal type
+ids adjacent and ascending (the order `Reader::check` demands of the type table) -/
+def ItemsWellFormed (items : List Item) : Prop :=
+  (∀ it ∈ items, it.typeId < 65536 ∧ it.id < 65536 ∧ ∀ w ∈ it.data, InI32 w)
+    ∧ items.Pairwise (fun a b => a.typeId ≤ b.typeId)
+
+/-- **Full round-trip statement (not proved in full; see `roundtrip_header_partial`, the
+kernel-checked instances below and the `rt` / `openx` correspondence requests).**  For versions 3
+and 4, any well-formed item list and any data blocks whose file stays below 2 GiB, and any zlib
+pair with `inflate |x| (deflate x) = x`: the written file is accepted and returns exactly the
+items and the data that were stored. -/
+def C16_roundtrip_full : Prop :=
+  ∀ (ver : Nat) (deflate : List UInt8 → List UInt8) (inflate : Nat → List UInt8 → Option (List UInt8))
+    (items : List Item) (datas : List (List UInt8)),
+    (ver = 3 ∨ ver = 4) → ItemsWellFormed items →
+    (sizesOf ver deflate items datas).total ver ≤ 2147483647 →
+    (∀ x ∈ datas, inflate x.length (deflate x) = some x) →
+    ∃ r, Reader.new (writeDf ver deflate items datas) = .ok r
+      ∧ r.numItems = items.length ∧ r.numData = datas.length
+      ∧ (∀ k (hk : k < items.length), ∃ v, r.item k = .ok v ∧ v.typeId = items[k].typeId
+            ∧ v.id = items[k].id ∧ v.data = items[k].data)
+      ∧ (∀ i (hi : i < datas.length), r.readData inflate i = .ok datas[i])
+
+/-- **Round trip, header part (partial).**  For versions 3 and 4 and *every* item/data set whose
+file stays below 2 GiB, `Header::read` on the written file succeeds with the version, counts and
+sizes of what was written, and `check_size_and_swaplen` accepts the writer's `size`/`swaplen` as
+the non-crude variant with `expected_size` = the writer's total.  (The remaining steps of
+`C16_roundtrip_full` — table reads, `check`, item and data equality — are covered by the
+instances below and by the correspondence, not by a general theorem.) -/
+theorem roundtrip_header_partial (ver : Nat) (hv : ver = 3 ∨ ver = 4)
+    (deflate : List UInt8 → List UInt8) (items : List Item) (datas : List (List UInt8))
+    (hmax : (sizesOf ver deflate items datas).total ver ≤ 2147483647) :
+    ∃ h, Header.read (writeDf ver deflate items datas) = .ok h
+      ∧ h.version = ver ∧ h.numItems = items.length ∧ h.numData = datas.length
+      ∧ h.numItemTypes = (groupTypes items 0 []).length
+      ∧ h.checkSizeAndSwaplen
+          = .ok { expectedSize := ((sizesOf ver deflate items datas).total ver : Nat), crude := false } :=
+  writer_header_accepted ver hv deflate items datas hmax
+
+/-- bytes ↔ words: what the writer serialises is what the reader's table reads see -/
+theorem words_bytes_roundtrip (ws : List Int) (h : ∀ w ∈ ws, InI32 w) (rest : List UInt8) :
+    wordsOfBytes (bytesOfWords ws) = ws
+      ∧ readExact (4 * ws.length) (bytesOfWords ws ++ rest) = some (bytesOfWords ws, rest) := by
+  refine ⟨wordsOfBytes_bytesOfWords ws h, ?_⟩
+  rw [← bytesOfWords_length]
+  exact readExact_append _ _
+
+/-- kernel-checked instances of `C16_roundtrip_full` (identity "compression"): three item types,
+empty and non-empty items and blocks, both versions -/
+theorem roundtrip_instances :
+    roundTripOk 3 id (fun _ s => some s)
+        [⟨0, 0, [1]⟩, ⟨4, 0, [7, -1, 2147483647]⟩, ⟨4, 65535, []⟩, ⟨65535, 2, [-2147483648]⟩]
+        [[104, 105, 0], [], [255, 0, 1, 2, 3]] = true
+    ∧ roundTripOk 4 id (fun _ s => some s)
+        [⟨0, 0, [1]⟩, ⟨4, 0, [7, -1, 2147483647]⟩, ⟨4, 65535, []⟩, ⟨65535, 2, [-2147483648]⟩]
+        [[104, 105, 0], [], [255, 0, 1, 2, 3]] = true
+    ∧ roundTripOk 3 id (fun _ s => some s) [] [] = true
+    ∧ roundTripOk 4 id (fun _ s => some s) [] [] = true := by
+  decide +kernel
 
 /-! ## Map layer (`map/src/format.rs`, `map/src/reader.rs`) -/
 
